@@ -159,6 +159,9 @@ func (cpi *Iterator) Next() (*types.Block, error) {
 
 // StorageSize returns bytes of storage used by the freelist.
 func (fl *FreeList) StorageSize() (int64, error) {
+	// ToGC replaces fl.file under the flush lock.
+	fl.flushLock.Lock()
+	defer fl.flushLock.Unlock()
 	fi, err := fl.file.Stat()
 	if err != nil {
 		if os.IsNotExist(err) {
